@@ -24,6 +24,37 @@ CHECKS = {
         "DESIGN.md section 8, C01",
         "Programs outside the generator grammar (3-10 nodes, <=3 params) are not covered.",
     ),
+    "C02": (
+        "exploration",
+        "runtime monitoring: differential sync/async execution under a controlled asyncio scheduler enumerating completion orders; call-log multiset + step-trace isolation oracle",
+        "Each generated program (acyclic, gated, cyclic) is executed once synchronously and then asynchronously under every "
+        "completion order of every step (depth-first enumeration through a scheduler that parks node bodies and releases one at "
+        "each exactly-detected quiescent point; capped per program, sampled beyond), several concurrency limits, yield-injecting "
+        "processors and shuffled node lists; outcomes, invocation multisets, error identity (one and two injected failures) and "
+        "same-step isolation are compared. Exploration over schedules with exhaustive sub-spaces for small steps.",
+        "DESIGN.md section 8, C02",
+        "Known finding F-C02a (re-run sibling overwrites a sync partial value) is listed in known_findings.json.",
+    ),
+    "C03": (
+        "exploration",
+        "runtime monitoring: online trace rules over call log + step tap (activation and gate-before-target), cross-checked with RouteDecisionEvents; RefEval in the deterministic sub-class",
+        "Generated gated programs (all gate kinds, shared targets, gate chains, nesting, loops, explicit-edge and emit-as-data "
+        "wirings) are run for every selector value on both runners; every start of a gated node is checked against the latest "
+        "decisions of its controlling gates, every step against gate/target co-membership, and in the sub-class where the "
+        "statement fixes the executed set exactly it is compared with the reference evaluator.",
+        "DESIGN.md section 8, C03",
+        "Early start under an undecided default-open gate is allowed and not flagged.",
+    ),
+    "C04": (
+        "exploration",
+        "runtime monitoring: loop templates vs sequential while-loop reference (values, per-node counts), step-count bound from the superstep tap, max_iterations sweep with exact partial-state oracle",
+        "Loop templates (counter/body chain/route/ifelse/exit node/entry points/accumulator/emit-synchronised/nested) over all "
+        "iteration counts 0..9 are compared with a plain Python while-loop; termination is decided as bounded progress: executed "
+        "steps per run <= max_iterations and either quiescent completion or InfiniteLoopError with exactly the sequential state "
+        "after that many steps.",
+        "DESIGN.md section 8, C04",
+        "The number of steps a loop needs is observed, not prescribed. Nested cyclic graphs with several entry points are excluded here (see C08).",
+    ),
 }
 
 NOT_YET = {}
